@@ -25,6 +25,7 @@ def run(tier, seed):
         list(ex.map(lambda s: vlib.drive(bindir, "sweeps", sets=s, seed=seed + 2, nkeys=1000, nedge=60000 if tier == "quick" else 1500000, nedgefull=1, nsamplers=0, out=sw, timeout=7200), (44, 65, 87)))
     common.validate_f(chk, {s: os.path.join(sw, "sweeps_%d.ndjson" % s) for s in (44, 65, 87)}, nproc=6, chunks_per_set=2, key_of=lambda m: "rare-key:" + m["ev"])
     common.nohooks_leg(chk, "honest", nseeds=2, nmsgs=4)
+    common.native_leg(chk, "honest", nseeds=2, nmsgs=6)
     common.mc_leg(chk, "MC_API", tier=tier, workers=12)
     common.mc_leg(chk, "MC_ToySign", tier=tier)
     if tier == "thorough":
